@@ -182,9 +182,10 @@ def check_get_vocab(ctx):
     # the byte part: range 0..256 mapped to (b as u32, vec![b as u8])
     cols = [t for t in body.calls(r'Iterator::collect$')]
     good = False
+    from rules.common import range_bounds
     for c in cols:
         ch = sym(body, c.args[0])
-        if match(ch, Call('Iterator::map', ('agg', 'adt', Pred(lambda n_: n_.endswith('Range::Range')), (Const(0), Const(256))), ANY)):
+        if match(ch, Call('Iterator::map', ANY, ANY)) and range_bounds(ch[2][0]) == (0, 256):
             good = True
     ctx.require(good, body, 'get-vocab-bytes', 'get_vocab: ids 0..256 are the single bytes', None)
 
